@@ -242,8 +242,8 @@ def run_sync_scenario(case):
             ks = sorted(set(rng.sample(range(1, K + 1), min(K, 20)) + [1, K]))
             points = [(k, rng.choice(MODES)) for k in ks] + [(k, m) for k in rng.sample(ks, min(5, len(ks))) for m in MODES]
         sig_points = list(range(1, npar + 1))
-        if tier == "quick" and len(sig_points) > 8:
-            sig_points = sorted(rng.sample(sig_points, 8))
+        if tier == "quick" and len(sig_points) > 12:
+            sig_points = sorted(rng.sample(sig_points, 12))
         allp = [("kill", k, m) for (k, m) in points] + [("sigint", j, "sigint") for j in sig_points]
         # kills right after each content rename while the parity writers are slowed down (write-behind made visible)
         nren = len([e for e in evs if e.kind == "E" and e.cls == "content" and e.op == "rename"])
@@ -293,11 +293,12 @@ def run_sync_scenario(case):
                 # killed process; what C07 promises is checked below (resume re-establishes the guarantee)
                 res["counters"]["obs_interrupted_image_c06_mismatch"] = res["counters"].get("obs_interrupted_image_c06_mismatch", 0) + 1
             # (3) adds only: earlier files stay recoverable meanwhile
-            if adds_only and rng.random() < (0.5 if tier == "quick" else 0.8):
+            if adds_only and (ptype == "sigint" or rng.random() < (0.5 if tier == "quick" else 0.8)):
                 img = Template(a)
                 try:
                     c_int = cnt.load(a.cpaths()[0])
-                    nloss = rng.randint(1, a.nlev) if ptype == "sigint" else 1
+                    # after a graceful stop up to N devices may be lost: mostly the worst case N
+                    nloss = (a.nlev if rng.random() < 0.7 else rng.randint(1, a.nlev)) if ptype == "sigint" else 1
                     lost = rng.sample(list(a.disks), min(nloss, len(a.disks)))
                     for d in lost:
                         scen.wipe_disk(a, d)
